@@ -121,6 +121,7 @@ const NAMES: &[&str] = &[
     // operations on values the caller keeps: nothing may be closed, nothing may stay behind
     "unix_stream_io", "tcp_stream_io", "tcp_read_timeout_expires", "file_io", "dir_iterate", "epoll_existing",
     "unix_accept_timeout", "unix_accept_timeout_expires", "tcp_accept_timeout", "tcp_connect_timeout", "child_wait",
+    "tcp_inprogress_try_connect", "anon_pipe_io", "child_try_wait",
 ];
 
 #[allow(clippy::too_many_lines)]
@@ -584,6 +585,49 @@ fn setup(name: &str, root: &Path) -> Scen {
             });
             s.owned = vec![stdin_fd];
             s
+        }
+
+        "tcp_inprogress_try_connect" => {
+            let bg = std::net::TcpListener::bind("127.0.0.1:0").unwrap();
+            let port = bg.local_addr().unwrap().port();
+            let addr = SocketAddress::new(Ip::V4([127, 0, 0, 1]), port);
+            match TcpStream::try_connect(&addr).unwrap() {
+                TcpTryConnect::InProgress(p) => {
+                    let mut s = scen_bg(bg, move || {
+                        Ret::from(p.try_connect(), |s| match s {
+                            TcpTryConnect::Connected(s) => (vec![s.as_raw_fd().value()], true),
+                            TcpTryConnect::InProgress(_) => (vec![], false),
+                        })
+                    });
+                    s.owned = vec![-1];
+                    s
+                }
+                TcpTryConnect::Connected(c) => scen_bg((bg, c), move || Ret::ok(vec![], true, Box::new(()))),
+            }
+        }
+        "anon_pipe_io" | "child_try_wait" => {
+            let mut c = Command::new(lit("/bin/cat")).unwrap();
+            c.env(UnixString::try_from_str("A=1").unwrap());
+            c.stdin(Stdio::MakePipe).stdout(Stdio::MakePipe);
+            let mut child = c.spawn().unwrap();
+            if name == "anon_pipe_io" {
+                scen(move || {
+                    use tiny_std::io::{Read, Write};
+                    let mut b = [0u8; 4];
+                    let r = child.stdin.as_mut().unwrap().write(b"ping").and_then(|_| child.stdout.as_mut().unwrap().read(&mut b));
+                    let ret = Ret::unit(r);
+                    // the pipes stay with the caller (cat sees end of file when this process exits)
+                    std::mem::forget(child);
+                    ret
+                })
+            } else {
+                scen(move || {
+                    let r = child.try_wait();
+                    let ret = Ret::unit(r);
+                    std::mem::forget(child);
+                    ret
+                })
+            }
         }
         _ => {
             eprintln!("unknown scenario {name}");
